@@ -54,12 +54,19 @@ BigTrees == {VStr(x) : x \in EscStrs \cup LongStrs}
 \* tokens of tens of kilobytes: the print buffer passes 64 KiB and single tokens exceed half of it (emission of Render only)
 HugeTrees == {VObj(<< <<<<104>>, VStr(As(40000))>>, <<<<110>>, VNum(N_one)>>, <<<<98>>, VStr(As(100000))>>, <<<<116>>, VArr(<<VTrue, VNull>>)>> >>),
               VStr(As(66000)), VArr([i \in 1..9000 |-> VStr(As(7))]) }
-Universe == IF Tier = "huge" THEN HugeTrees ELSE IF Tier = "quick" THEN Scalars \cup L1 \cup D3 \cup Raws
+Universe == IF Tier = "huge" THEN HugeTrees ELSE IF Tier = "table" THEN {VNull} ELSE IF Tier = "quick" THEN Scalars \cup L1 \cup D3 \cup Raws
             ELSE IF Tier = "big" THEN BigTrees
             ELSE Scalars \cup L1 \cup L2 \cup D3 \cup Raws
 
 RECURSIVE HasRaw(_)
 HasRaw(x) == x.t = "raw" \/ \E i \in DOMAIN x.m : HasRaw(x.m[i].v)
+
+\* the text every print entry point must give for member i of v when that member is passed in place
+Subs(x, f) == IF x.t \in {"arr", "obj"} THEN [i \in DOMAIN x.m |-> Render(x.m[i].v, f, 0)] ELSE <<>>
+
+\* the escape function of print_string_ptr is a byte-wise map: the table the driver applies to every 2- and 3-byte string
+EscTable == [b \in 1..255 |-> EscByte(b)]
+ContextFree == \A s \in SS \cup KS : \A t \in SS : EscBody(s \o t) = EscBody(s) \o EscBody(t)
 
 Init == v \in Universe /\ fmt \in BOOLEAN /\ phase = 0
 
@@ -79,13 +86,20 @@ Check ==
       mono == \A n \in NS0 : (n + 1 \in NS0 /\ pre(n).ok) => pre(n + 1).ok
       strict == HasRaw(v) \/ (IsText(text, "rfc") /\ StrictEq(TextValue(text, "rfc"), Canon(v)))
       strip == StripWs(Render(v, TRUE, 0), FALSE, FALSE) = Render(v, FALSE, 0)
+      \* every print entry point prints exactly the item it is given: a member printed in place (it has siblings, it may have a key)
+      \* gives the text of that member alone, at depth 0
+      inplace == \A i \in DOMAIN Subs(v, fmt) : \A rl \in BOOLEAN :
+                   LET r == PrintAlloc(v.m[i].v, fmt, rl, 256) IN r.ok /\ r.text = Subs(v, fmt)[i]
   IN /\ Assert(okAlloc, <<"C04/C05: the buffer machine does not produce Render(v) for some entry point / buffer size / allocator", v, fmt>>)
      /\ Assert(strict, <<"C05: Render(v) is not one RFC 8259 text denoting v", v, fmt>>)
      /\ Assert(strip, <<"C05: formatted minus whitespace differs from unformatted", v>>)
      /\ Assert(safe /\ mono /\ thr >= L + 1 /\ thr <= L + 6, <<"C09: printing into a caller buffer", v, fmt, thr>>)
-     /\ (Emit => PrintT(ToJson(<<"R", JV(v), fmt, text, thr>>)))
+     /\ Assert(inplace, <<"C05: an item printed where it stands (with siblings) is not Render(item)", v, fmt>>)
+     /\ (Emit => PrintT(ToJson(<<"R", JV(v), fmt, text, thr, Subs(v, fmt)>>)))
 
 \* huge trees: only the declarative text is produced (the buffer machine is checked on the smaller tiers)
 EmitOnly == LET text == Render(v, fmt, 0) IN Emit => PrintT(ToJson(<<"R", JV(v), fmt, text, Len(text) + 2>>))
-Next == phase = 0 /\ phase' = 1 /\ UNCHANGED <<v, fmt>> /\ (IF Tier = "huge" THEN EmitOnly ELSE Check)
+EmitTable == /\ Assert(ContextFree, "EscBody is not a byte-wise map")
+             /\ (Emit => PrintT(ToJson(<<"E", EscTable>>)))
+Next == phase = 0 /\ phase' = 1 /\ UNCHANGED <<v, fmt>> /\ (IF Tier = "huge" THEN EmitOnly ELSE IF Tier = "table" THEN EmitTable ELSE Check)
 =============================================================================
